@@ -57,4 +57,4 @@ P = {
 import sys
 for pid, d in P.items():
     open("/verif/props/%s.py" % pid, "w").write(T.format(pid=pid, title=d["title"], text=d["text"], note=NOTE, technique=TECH,
-        corr=d["corr"], orc=d["orc"], nq=400, nt=4000, oq=400, ot=5000, extra_assumptions=[]))
+        corr=d["corr"], orc=d["orc"], nq=10000, nt=150000, oq=6000, ot=100000, extra_assumptions=[]))
